@@ -140,8 +140,24 @@ def run_case(prop: str, seed: int, explicit_plan: dict | None = None, keep_hist:
         except Exception:
             pass
         shutil.rmtree(root, ignore_errors=True)
+        _release_memory()
         res["wall_s"] = round(time.time() - t0, 3)
     return res
+
+
+def _release_memory():
+    """Every case builds new solver objects with their own jitted / pmapped functions; JAX keeps
+    the compiled executables of all of them alive (about 10 MB per case, 2 GB after 200 cases)
+    unless its caches are cleared.  Nothing is reused across cases, so clearing costs nothing."""
+    try:
+        import gc
+
+        import jax
+
+        jax.clear_caches()
+        gc.collect()
+    except Exception:
+        pass
 
 
 def joint_states(plan, run) -> list[str]:
